@@ -763,6 +763,8 @@ def plan(tier):
                  compare=['plain', 'qtree', 'guess1', 'brect'], block=(2, [False, True])),
             dict(geo='rot37', ncols=None, nx=3, ny=3, variants=['plain', 'qtree', 'guess4'], compare=None, block=None),
             dict(geo='g7sub', ncols=10, nx=3, ny=3, variants=['plain', 'qtree', 'sqtree:firsthalf'], compare=None, block=None),
+            # gently curved outer boundary: the boundary polygon as bounding polygon, alone and with other aids
+            dict(geo='g2arc', ncols=8, nx=2, ny=2, variants=['bpoly', 'bpoly+guess5'], compare=None, block=None),
         ]
     return [
         dict(geo='rect33', ncols=None, nx=2, ny=2,
@@ -790,6 +792,9 @@ def plan(tier):
         dict(geo='g5sub', ncols=12, nx=4, ny=4,
              variants=['plain', 'qtree', 'bnodes', 'guess7', 'sqtree:lasthalf'],
              compare=None, block=None),
+        dict(geo='g2arc', ncols=10, nx=3, ny=3,
+             variants=['plain', 'bpoly', 'bpoly+guess6', 'bpoly+qtree', 'brect'],
+             compare=['plain', 'bpoly', 'bnodes'], block=None),
     ]
 
 
@@ -836,6 +841,8 @@ def run(tier, seed, rep):
                                              zbox=gdB.outer_z() if second == 'block' else None)))
     if tier == 'thorough' and (not only or 'track' in only.split(',')):
         tasks += track_tasks()
+    if not only or 'otrack' in only.split(','):
+        tasks += otrack_tasks(tier)
     if seed:
         import random
         random.Random(seed).shuffle(tasks)
@@ -1054,4 +1061,254 @@ def track_tasks():
                 for j in range(len(scuts) - 1):
                     tasks.append((task_track, dict(geo=geo, orient=orient, obox=(ocuts[i], ocuts[i + 1]), sbox=(scuts[j], scuts[j + 1]),
                                                    boxid='%d.%d' % (i, j))))
+    return tasks
+
+
+# ---------------------------------------------------------------------------
+# column_track for OBLIQUE lines: concrete direction with integer components and integer length (3-4-5, 5-12-13 ...),
+# concrete length, SYMBOLIC offset across the line direction.  Everything the real code computes is then piecewise
+# linear in the one symbol, so every path is an interval of offsets between two events (line through a node, a crossing
+# distance passing a rounding threshold, an end point crossing an edge ...).
+
+def convex_pieces(P):
+    """P (exact vertices) -> list of convex counter-clockwise polygons with disjoint interiors whose union is P."""
+    n = len(P)
+    area2 = sum(P[i][0] * P[(i + 1) % n][1] - P[(i + 1) % n][0] * P[i][1] for i in range(n))
+    if area2 < 0: P = P[::-1]
+    if all(_cross(P[i], P[(i + 1) % n], P[(i + 2) % n]) >= 0 for i in range(n)): return [list(P)]
+    return [list(t) for t in _earclip(P)]
+
+
+def _isqrt_exact(v):
+    r = math.isqrt(int(v))
+    if r * r != v: raise ValueError('direction must have an integer length')
+    return r
+
+
+OB_SHAPES = ('through', 'startin', 'endin', 'bothin')
+
+
+def oblique_config(gd, D, shape):
+    """Line family  P0(o) = A + o * N,  P1(o) = P0(o) + L * D  with N = (-Dy, Dx) and concrete A, L:
+    through: both ends outside the bounding box; startin / endin: that end sweeps across the geometry along N through
+    the centre of the bounding box, the other end is outside; bothin: a short segment around that transversal."""
+    dx, dy = D
+    nD = _isqrt_exact(dx * dx + dy * dy)
+    C = ((gd.xmin + gd.xmax) / 2, (gd.ymin + gd.ymax) / 2)
+    R = (gd.xmax - gd.xmin) + (gd.ymax - gd.ymin)            # >= the diagonal
+    M = F(-((-R) // nD))                                      # integer, M * |D| >= R
+    if shape == 'through': A, L = (C[0] - M * dx, C[1] - M * dy), 2 * M
+    elif shape == 'startin': A, L = C, M
+    elif shape == 'endin': A, L = (C[0] - M * dx, C[1] - M * dy), M
+    elif shape == 'bothin': A, L = (C[0] - M * dx / 8, C[1] - M * dy / 8), M / 4
+    else: raise KeyError(shape)
+    omax = R * F(3, 5) / nD                              # offsets |o| * |N| up to 0.6 R: some lines miss the geometry
+    return dict(D=(F(dx), F(dy)), N=(F(-dy), F(dx)), nD=F(nD), A=A, L=F(L), orange=(-omax, omax))
+
+
+def oblique_cuts(gd, cfg, nseg):
+    """cut the offset range at quantiles of the offsets at which the line passes through a node"""
+    A, N = cfg['A'], cfg['N']
+    nn = N[0] * N[0] + N[1] * N[1]
+    lo, hi = cfg['orange']
+    ev = sorted(set(((x - A[0]) * N[0] + (y - A[1]) * N[1]) / nn for P in gd.polys for (x, y) in P))
+    ev = [v for v in ev if lo < v < hi]
+    cs = []
+    for j in range(1, nseg):
+        v = ev[min(len(ev) - 1, (j * len(ev)) // nseg)]
+        if v not in cs: cs.append(v)
+    cz = [lo] + sorted(cs) + [hi]
+    return [(cz[i], cz[i + 1]) for i in range(len(cz) - 1)]
+
+
+def _install_dir_norm(ld, D, nD):
+    """norm() for the oblique track tasks: a symbolic vector the solver shows to be parallel to the (concrete) line
+    direction D on this path has the norm |v . D| / |D| exactly (|D| is an integer); anything else falls back to
+    snorm (square kept, zero components dropped)."""
+    dx, dy, nd = int(D[0]), int(D[1]), int(nD)
+    from vx import npshim
+    import numpy as _np
+    def norm_dir(x, *a, **kw):
+        if not a and not kw and npshim._has_sym(x):
+            arr = _np.asarray(x, dtype=object).ravel()
+            if len(arr) == 2:
+                c = sym.ctx()
+                cr = arr[0] * dy - arr[1] * dx
+                par = False
+                if not isinstance(cr, sym.SReal): par = (cr == 0)
+                else:
+                    e = z3.simplify(cr.e, som=True)
+                    nv = sym.numeral_value(e)
+                    if nv is not None: par = (nv == 0)
+                    else:
+                        r, _ = c.solve(e != 0)
+                        par = (r == 'unsat')
+                if par:
+                    npshim._hit('np.linalg.norm (vector parallel to the concrete line direction by solver lemma: |v.D|/|D|)')
+                    dot = arr[0] * dx + arr[1] * dy
+                    if not isinstance(dot, sym.SReal): dot = sym.SReal(sym.lift_real(dot))
+                    return abs(sym.SReal(z3.simplify(dot.e, som=True))) / nd
+        return snorm.norm_zc(x, *a, **kw)
+    for m in ('geometry', 'mulgrids'):
+        getattr(ld, m).__dict__['norm'] = norm_dir
+    def solve_som(Am, b):
+        # the engine's 2x2 Cramer solve, with the results expanded to sums of monomials (the matrix is constant on these
+        # tasks although built from symbolic differences, so the solution becomes syntactically LINEAR in the offset)
+        r = npshim.solve(Am, b)
+        out = _np.empty(len(r), dtype=object)
+        for i, v in enumerate(r):
+            out[i] = sym.SReal(z3.simplify(v.e, som=True)) if isinstance(v, sym.SReal) else v
+        return out
+    if 'solve' in ld.geometry.__dict__: ld.geometry.__dict__['solve'] = solve_som
+
+
+def task_otrack(geo, D, shape, orng, boxid):
+    ld = _load()
+    _install_track_stubs(ld)
+    gd = GeoData(geo, None, need_qtree=False)
+    cfg = oblique_config(gd, D, shape)
+    _install_dir_norm(ld, D, cfg['nD'])
+    mg = gd.mg
+    (dx, dy), (nx, ny), nD, A, L = cfg['D'], cfg['N'], cfg['nD'], cfg['A'], cfg['L']
+    Len = L * nD                                              # length of the line
+    O = z3.Real('o')
+    P0 = (q(A[0]) + O * q(nx), q(A[1]) + O * q(ny))
+    zmin = lambda a, b: z3.If(a <= b, a, b)
+    zmax = lambda a, b: z3.If(a >= b, a, b)
+    zab = lambda e: z3.If(e >= 0, e, -e)
+    ZERO = z3.RealVal(0)
+    pieces = [convex_pieces(P) for P in gd.polys]
+    sides = []
+    for P in gd.polys:
+        sides.append([F(math.sqrt(float((P[i][0] - P[(i + 1) % len(P)][0]) ** 2 + (P[i][1] - P[(i + 1) % len(P)][1]) ** 2))) for i in range(len(P))])
+    minside = min(min(s) for s in sides)
+    eps = minside / 10 ** 6 + Len / 10 ** 8                   # slack on positions (the code accepts crossings 1e-9 beyond edge / line ends)
+    tolk = [max(s) * F(1e-3) * (1 + F(1, 10 ** 9)) for s in sides]     # column_track: clips up to 1e-3 of the longest side are dropped
+    # NON-CONVEX columns only: a segment may span a clip of the notch at a reflex corner (the crossings either side of it are
+    # merged as duplicates) if that clip is shorter than 1e-3 of the column's diameter; 0 for convex columns
+    def _diam(P): return F(math.sqrt(float(max((a[0] - b[0]) ** 2 + (a[1] - b[1]) ** 2 for a in P for b in P))))
+    notchk = [(len(pieces[k]) - 1) * _diam(gd.polys[k]) * F(1e-3) * (1 + F(1, 10 ** 9)) for k in range(len(gd.polys))]
+
+    def piece_interval(T, a, b):
+        """length of the part of the line between positions a, b (distance from the start) that lies in the convex polygon T"""
+        lo, hi, conds = a, b, []
+        for i in range(len(T)):
+            (ax, ay), (bx, by) = T[i], T[(i + 1) % len(T)]
+            ex, ey = -(by - ay), bx - ax                      # inward normal (T counter-clockwise)
+            g1 = (ex * dx + ey * dy) / nD
+            g0 = q(ex) * (P0[0] - q(ax)) + q(ey) * (P0[1] - q(ay))
+            if g1 > 0: lo = zmax(lo, -g0 / q(g1))
+            elif g1 < 0: hi = zmin(hi, g0 / q(-g1))
+            else: conds.append(g0 >= 0)
+        return z3.If(z3.And(*(conds + [hi > lo])), hi - lo, ZERO)
+
+    def inside_len(k, a, b):
+        return z3.Sum(*([piece_interval(T, a, b) for T in pieces[k]] + [ZERO]))
+
+    lens = [z3.simplify(inside_len(k, ZERO, q(Len))) for k in range(len(gd.polys))]
+    # admissible lines: end points farther than tau from every edge line; the line does not run along an edge
+    excl = []
+    for (a, b, cc), Nn in gd.lines:
+        t = gd.tau * Nn
+        for (px, py) in (P0, (P0[0] + q(L * dx), P0[1] + q(L * dy))):
+            Lf = q(a) * px + q(b) * py + q(cc)
+            excl.append(z3.Or(Lf > q(t), Lf < q(-t)))
+        if a * dx + b * dy == 0:                              # edge parallel to the line
+            Lf = q(a) * P0[0] + q(b) * P0[1] + q(cc)
+            excl.append(z3.Or(Lf > q(t), Lf < q(-t)))
+    failures, samples, distinct = [], [], set()
+    tagD = 'dir%d.%d' % (int(dx), int(dy))
+
+    def fail(c, sub, what, cols=()):
+        m = c.failures[-1]['model']
+        cls = shape
+        if any(k is not None and len(pieces[k]) > 1 for k in cols): cls = 'nonconvex-column'      # one class whatever the end points
+        failures.append(dict(key='column_track/%s/oblique/%s/%s' % (geo, cls, sub), what='%s %s %s: %s' % (geo, tagD, shape, what),
+                             replay=dict(fn='otrack', geo=geo, D=[int(dx), int(dy)], shape=shape, o=sym.model_value(m, O),
+                                         A=[str(A[0]), str(A[1])], L=str(L))))
+
+    def pos(p):
+        """(distance from the start along the line, offset across it) of a point returned by the code"""
+        vx, vy = sym.lift_real(p[0]) - P0[0], sym.lift_real(p[1]) - P0[1]
+        return (vx * q(dx) + vy * q(dy)) / q(nD), (vx * q(dy) - vy * q(dx)) / q(nD)
+
+    def h(c):
+        o = c.real('o', orng[0], orng[1])
+        for e in excl: c.add(e)
+        p0 = [o * int(nx) + float(A[0]), o * int(ny) + float(A[1])]
+        p1 = [p0[0] + float(L * dx), p0[1] + float(L * dy)]
+        line = [mg.np.array(p0), mg.np.array(p1)]
+        try:
+            track = gd.geo.column_track(line)
+        except Exception as ex:
+            if c.refute_path('column_track raises no exception') == 'sat':
+                fail(c, type(ex).__name__, 'raised %s: %s' % (type(ex).__name__, ex))
+            return 'raised'
+        names = [t[0].name for t in track]
+        ks = [gd.index.get(nm) for nm in names]
+        ok_struct = all(k is not None and gd.cols[k] is t[0] for k, t in zip(ks, track)) and \
+            all(names.count(nm) <= len(pieces[gd.index[nm]]) for nm in set(names) if nm in gd.index)
+        if c.holds(ok_struct, 'track lists columns of the geometry, a convex column at most once') == 'sat':
+            fail(c, 'structure', 'track %r' % names); return 'track'
+        segs = []
+        for (col, pin, pout), k in zip(track, ks):
+            uin, win = pos(pin); uout, wout = pos(pout)
+            segs.append((k, uin, uout))
+            f1 = z3.And(zab(win) <= q(eps), zab(wout) <= q(eps), uin >= q(-eps), uout <= q(Len + eps), uout > uin,
+                        inside_len(k, uin, uout) >= uout - uin - q(eps + notchk[k]))
+            distinct.add(('seg', z3.simplify(f1).hash()))
+            if c.prove(f1, 'entry and exit lie on the line, and the line runs inside the listed column all the way between them') == 'sat':
+                fail(c, 'segment-not-inside-column', 'column %r of track %r' % (col.name, names), [k])
+        if len(segs) > 1:
+            conj = [segs[i][1] <= segs[i + 1][1] for i in range(len(segs) - 1)]
+            for i in range(len(segs)):
+                for j in range(i + 1, len(segs)):
+                    conj.append(zmin(segs[i][2], segs[j][2]) - zmax(segs[i][1], segs[j][1]) <= q(eps + notchk[segs[i][0]] + notchk[segs[j][0]]))
+            f3 = z3.And(*conj)
+            distinct.add(('order', z3.simplify(f3).hash()))
+            if c.prove(f3, 'ordered by distance from the start; no two segments overlap') == 'sat':
+                fail(c, 'order-or-overlap', 'track %r' % names, ks)
+        for k in range(len(gd.polys)):
+            listed = z3.Sum(*([s[2] - s[1] for s in segs if s[0] == k] + [ZERO]))
+            f2 = z3.And(lens[k] - listed <= q(len(pieces[k]) * tolk[k] + eps), lens[k] - listed >= q(-2 * eps - notchk[k]))
+            distinct.add(('cover', z3.simplify(f2).hash()))
+            if c.prove(f2, 'length listed for a column = length of the line inside it, up to clips of at most 1e-3 of its longest side') == 'sat':
+                fail(c, 'column-missing' if k not in ks else 'length', 'track %r, column %r' % (names, gd.cols[k].name), [k])
+        if len(samples) < 1 and track:
+            samples.append(dict(task='otrack', geo=geo, D=[int(dx), int(dy)], shape=shape, track=[(t[0].name, str(t[1])[:60], str(t[2])[:60]) for t in track]))
+        return 'track'
+
+    cpu0 = time.process_time()
+    res = sym.explore(h, fastctx.FastCtx(timeout_ms=20000), max_paths=5000)
+    CPU['s'] = time.process_time() - cpu0
+    return report.summarize('otrack/%s/%s.%s/box%s' % (geo, tagD, shape, boxid), res, failures, samples,
+                            extra=dict(cpu_s=CPU['s'], distinct_obligations=len(distinct)))
+
+
+def otrack_plan(tier):
+    """(geometry, direction, end-point shape, number of offset sub-ranges)"""
+    quick = [('rect22', (3, 4), 'through', 2), ('rect22', (-4, 3), 'startin', 2), ('rect3c', (3, -4), 'startin', 3),
+             ('notch3', (-4, 3), 'bothin', 2)]
+    if tier == 'quick': return quick
+    return quick + [
+        ('rect22', (3, 4), 'startin', 2), ('rect22', (3, 4), 'endin', 2), ('rect22', (3, 4), 'bothin', 2),
+        ('rect22', (-4, 3), 'through', 2), ('rect22', (5, 12), 'through', 2), ('rect22', (12, -5), 'endin', 2), ('rect22', (-3, -4), 'bothin', 2),
+        ('rect31', (4, 3), 'through', 2), ('rect31', (-3, 4), 'endin', 2), ('rect31', (-12, 5), 'startin', 2),
+        ('rect3c', (4, 3), 'through', 3), ('rect3c', (-12, 5), 'through', 3), ('rect3c', (4, 3), 'bothin', 3),
+        ('notch3', (-4, 3), 'startin', 2), ('notch3', (-4, 3), 'endin', 2), ('notch3', (-4, 3), 'through', 2),
+        ('notch3', (3, 4), 'through', 2), ('notch3', (4, -3), 'bothin', 2), ('notch3', (-3, 4), 'through', 2),
+        ('mix5', (3, 4), 'through', 3), ('mix5', (-4, 3), 'through', 3), ('mix5', (4, -3), 'startin', 3),
+    ]
+
+
+def otrack_tasks(tier):
+    tasks = []
+    import os
+    flt = os.environ.get('C12_OT')                            # development aid: only these geometries
+    for geo, D, shape, nseg in otrack_plan(tier):
+        if flt and geo not in flt.split(','): continue
+        gd = GeoData(geo, None, need_qtree=False)
+        cfg = oblique_config(gd, D, shape)
+        for i, rng in enumerate(oblique_cuts(gd, cfg, nseg)):
+            tasks.append((task_otrack, dict(geo=geo, D=D, shape=shape, orng=rng, boxid=i)))
     return tasks
